@@ -566,12 +566,9 @@ func (st *SlimTrie) getIthLeafBytes(ith int32) []byte {
 		return nil
 	}
 
-	// TODO use FixedSize or bitmap for var-len leaves
-	// TODO it is possible there is a absent leaf
-	size := st.encoder.GetEncodedSize(nil)
-	idx := ith * int32(size)
-
-	return ls.Bytes[idx : idx+int32(size)]
+	// Leaves may be var-length or have absent(zero-length) elements:
+	// locate the element with the array itself, as getIthLeaf does.
+	return ls.get(ith)
 }
 
 func (st *SlimTrie) getLabels(qr *querySession) []uint64 {
